@@ -316,6 +316,24 @@ PROPS = {
                   "history; the probe returns identical bytes every time",
         "assumptions": COMMON_ASSUMPTIONS,
     },
+    "C12": {
+        "test": "TestC12", "variant": "race",
+        "quick": {"shards": 4, "timeout": 3000, "matrix": [{"gomaxprocs": g} for g in (16, 4, 2, 1)]},
+        "thorough": {"shards": 8, "timeout": 14400, "matrix": [{"gomaxprocs": g} for g in (16, 4, 2, 1, 8, 3, 16, 2)]},
+        "rule": "plans of 2..12 goroutines, each a drawn sequence of 1..6 calls from {Commit, CreateMultiProof, prove+CheckMultiProof "
+                "(up to 2*NumCPU+3 openings, shared indices), CreateIPAProof+CheckIPAProof at in-domain and out-of-domain points, "
+                "ipa.MultiScalar over the shared SRS, MultiExp with several NbTasks values, element encode/decode, batch helpers, fr "
+                "decoders/String/Exp (pooled big integers; canonical decoder incl. its rejecting path), private transcripts, "
+                "map-to-field} on disjoint arguments and one shared IPAConfig; plus a fixed plan with every kind of call. Each plan "
+                "is run sequentially, then concurrently from a start barrier, in a -race binary, one process per GOMAXPROCS value "
+                "in {1,2,4,16}. Non-trivial = plan with >= 2 goroutines that each execute a proving or MSM call; distinct by "
+                "(plan, GOMAXPROCS).",
+        "oracle": "differential: the bytes returned by every call when run concurrently == when run alone; the race detector (any "
+                  "report written while a plan runs fails it, the report is attached); watchdog with goroutine-dump classification",
+        "assumptions": COMMON_ASSUMPTIONS + ["the harness does not own the Go scheduler: data races on executed paths are found "
+                                             "reliably by the race detector, a logic error needing one rare interleaving may be missed"],
+        "level_note": "weakest claim of the set: schedules are sampled (GOMAXPROCS, repetition, -race), not enumerated; trusted base as for the other checks plus the Go race detector",
+    },
     "C16": {
         "test": "TestC16", "variant": "elem",
         "quick": {"shards": 16, "timeout": 900},
